@@ -103,7 +103,8 @@ Lemma table_words_ok l pairs ws : l <= 26 -> CpcImageDefs.lenN pairs <= 2 ^ 26 -
   Forall (fun p => p < 2 ^ (6 + l)) pairs ->
   compress_surprising_values pairs l = Some ws ->
   Forall (fun w => w < two32) ws /\
-  exists b, table_words_bound l (CpcImageDefs.lenN pairs) = Some b /\ CpcImageDefs.lenN ws <= b /\ pairs <> [].
+  exists b, table_words_bound l (CpcImageDefs.lenN pairs) = Some b /\ CpcImageDefs.lenN ws <= b /\ pairs <> [] /\
+            CpcImageDefs.lenN pairs <= 16 * CpcImageDefs.lenN ws.
 Proof.
   intros Hl Hn Hf H. unfold compress_surprising_values in H. cbv zeta in H.
   change (2 ^ 26) with 67108864 in Hn. unfold CpcImageDefs.lenN in *.
@@ -125,7 +126,13 @@ Proof.
   unfold table_words_bound. rewrite N.shiftl_1_l. rewrite (w32_id (2 ^ l)) by (change (2 ^ 32) with 4294967296; lia).
   destruct (N.eqb_spec (N.of_nat (length pairs)) 0) as [E0|E0].
   { destruct pairs; [contradiction|cbn [length] in E0; lia]. }
-  rewrite Eb. eexists. split; [reflexivity|]. split; [|exact Hne].
+  rewrite Eb. eexists. split; [reflexivity|].
+  assert (Hlow : N.of_nat (length pairs) <= 16 * N.of_nat (length ws)).
+  { pose proof (enc_bits_pairs_le nbb pairs 0 0 ltac:(lia) Hinc) as [Hlo _].
+    fold (CpcCodecProofs.lenN pairs) in *. fold (CpcCodecProofs.lenN ws) in *.
+    assert (CpcCodecProofs.lenN pairs * 2 <= CpcCodecProofs.lenN pairs * (2 + nbb)) by (apply N.mul_le_mono_l; lia).
+    lia. }
+  split; [|split; [exact Hne|exact Hlow]].
   (* as in CpcCodecProofs.pairs_codec_len, from the monotonicity the compressor checked *)
   set (k := 2 ^ l) in *.
   assert (Hrows : Forall (fun p => N.shiftr p 6 <= k) pairs).
@@ -183,12 +190,13 @@ Qed.
 (* the compressed window: 32-bit words, no more than the compressor's buffer = the bound the repaired readers check *)
 Lemma window_words_ok l s hist c : Core l s hist -> 4 <= l <= 26 -> window s <> [] ->
   let ws := compress_sliding_window (window s) l c in
-  Forall (fun w => w < two32) ws /\ CpcImageDefs.lenN ws <= safe_length_for_compressed_window_buf (2 ^ l) /\ ws <> [].
+  Forall (fun w => w < two32) ws /\ CpcImageDefs.lenN ws <= safe_length_for_compressed_window_buf (2 ^ l) /\ ws <> [] /\
+  2 ^ l <= 32 * CpcImageDefs.lenN ws.
 Proof.
   intros C Hl Hw ws. pose proof (window_bytes l s hist C) as Hb.
   destruct (c_win _ _ _ C) as [[Hnil _]|Hlen]; [contradiction|].
   assert (HlenN : N.of_nat (length (window s)) = 2 ^ l) by (rewrite Hlen; apply N2Nat.id).
-  split; [|split].
+  split; [|split; [|split]].
   - destruct (pseudo_phase_some l c ltac:(lia)) as (ph & H1 & H2 & H3).
     unfold ws, compress_sliding_window. rewrite H2.
     destruct (compress_bytes_spec (nth (N.to_nat ph) encoding_tables_for_high_entropy_byte []) (window s)
@@ -200,6 +208,13 @@ Proof.
     destruct (compress_bytes_spec (nth (N.to_nat ph) encoding_tables_for_high_entropy_byte []) (window s)
                 (byte_enc_ok (N.to_nat ph) ltac:(change 22%nat with (N.to_nat 22); lia)) Hb) as (_ & _ & _ & Hlo & _).
     cbv zeta in Hlo. intros E. rewrite E in Hlo. change (CpcCodecProofs.lenN (@nil N)) with 0 in Hlo. lia.
+  - destruct (pseudo_phase_some l c ltac:(lia)) as (ph & H1 & H2 & H3).
+    unfold ws, compress_sliding_window. rewrite H2.
+    assert (Hok : enc_ok (nth (N.to_nat ph) encoding_tables_for_high_entropy_byte []))
+      by (apply byte_enc_ok; change 22%nat with (N.to_nat 22); lia).
+    destruct (compress_bytes_spec _ (window s) Hok Hb) as (_ & _ & _ & Hlo & _). cbv zeta in Hlo.
+    pose proof (enc_bits_byte_le _ Hok (window s) Hb) as [Hge _].
+    unfold CpcCodecProofs.lenN in *. unfold CpcImageDefs.lenN. rewrite <- HlenN. lia.
 Qed.
 
 Lemma flavor_empty l c : determine_flavor l c = FL_EMPTY <-> c = 0.
@@ -396,15 +411,18 @@ Proof.
   (* the facts about the compressed state, case by case *)
   assert (Hwin : Forall (fun w => w < two32) (c_window c) /\
                  CpcImageDefs.lenN (c_window c) <= safe_length_for_compressed_window_buf (2 ^ l) /\
-                 (hw = false -> c_window c = [])).
+                 (hw = false -> c_window c = []) /\
+                 (CpcImageDefs.lenN (c_window c) = 0 \/ 2 ^ l <= 32 * CpcImageDefs.lenN (c_window c))).
   { destruct hw eqn:Ew.
     - destruct (cf_win_some _ _ _ F Ehw) as [Hwne ->].
-      destruct (window_words_ok l s hist (ncoup s) C Hl Hwne) as (W1 & W2 & _). repeat split; auto; discriminate.
-    - rewrite (cf_win_none _ _ _ F Ehw). repeat split; [constructor|apply N.le_0_l]. }
+      destruct (window_words_ok l s hist (ncoup s) C Hl Hwne) as (W1 & W2 & _ & W4).
+      split; [exact W1|]. split; [exact W2|]. split; [discriminate|right; exact W4].
+    - rewrite (cf_win_none _ _ _ F Ehw). split; [constructor|]. split; [apply N.le_0_l|]. split; [reflexivity|left; reflexivity]. }
   set (tne := if ncoup s =? 0 then 0 else if hw then c_num_entries c else ncoup s) in *.
   assert (Htab : Forall (fun w => w < two32) (c_table c) /\ tne < two32 /\ 4 * tne <= 192 * 2 ^ l /\
                  (exists b, table_words_bound l tne = Some b /\ CpcImageDefs.lenN (c_table c) <= b) /\
-                 (ht = false -> c_table c = [] /\ tne = 0) /\ (hw = false -> tne = ncoup s)).
+                 (ht = false -> c_table c = [] /\ tne = 0) /\ (hw = false -> tne = ncoup s) /\
+                 tne <= 16 * CpcImageDefs.lenN (c_table c)).
   { destruct ht eqn:Et.
     - destruct (cf_tab_some _ _ _ F Eht) as (pairs & P1 & P2 & P3 & P4 & P5 & _).
       assert (Hnz : (ncoup s =? 0) = false) by (rewrite Hne; reflexivity).
@@ -416,7 +434,7 @@ Proof.
           repeat split; lia. }
       destruct Htne as (T1 & T2 & T3).
       destruct (table_words_ok l pairs (c_table c) ltac:(lia) ltac:(change (2 ^ 26) with 67108864; exact T2) P3 P2)
-        as (W1 & b & W2 & W3 & _).
+        as (W1 & b & W2 & W3 & _ & W5).
       rewrite T1. repeat split; auto; try discriminate.
       + unfold two32. lia.
       + exists b. auto.
@@ -429,7 +447,7 @@ Proof.
       + destruct (table_words_bound_0 l) as (b & Hb). exists b. split; [exact Hb|apply N.le_0_l].
       + intros Ew. unfold tne in Htne. destruct (ncoup s =? 0) eqn:Enz; [apply N.eqb_eq in Enz; congruence|].
         rewrite Ew in Hne. cbn in Hne. discriminate. }
-  destruct Hwin as (Ww & Wl & Wn). destruct Htab as (Tw & Tt & T4 & (b & Tb & Tl) & Tn & Tnw).
+  destruct Hwin as (Ww & Wl & Wn & Wlow). destruct Htab as (Tw & Tt & T4 & (b & Tb & Tl) & Tn & Tnw & Tlow).
   inversion H; subst i; clear H.
   constructor; unfold ihh, iht, ihw;
     cbn [i_pre i_ser i_fam i_lgk i_fic i_flags i_sh i_nc i_tne i_kxp i_hip i_win i_tab]; rewrite ?B1, ?B2, ?B3, ?Hlg.
@@ -455,7 +473,14 @@ Proof.
   - eapply N.le_lt_trans; [exact Wl|apply safe_window_lt].
   - eapply N.le_lt_trans; [exact Tl|]. eapply table_words_bound_lt. exact Tb.
   - unfold counts_ok. cbv zeta. rewrite Tb.
-    apply andb_true_iff; split; [apply andb_true_iff; split; [apply andb_true_iff; split|]|]; apply N.leb_le; assumption.
+    replace (ncoup s <=? 64 * 2 ^ l) with true by (symmetry; apply N.leb_le; assumption).
+    replace (4 * tne <=? 192 * 2 ^ l) with true by (symmetry; apply N.leb_le; assumption).
+    replace (CpcImageDefs.lenN (c_window c) <=? safe_length_for_compressed_window_buf (2 ^ l)) with true
+      by (symmetry; apply N.leb_le; assumption).
+    replace (CpcImageDefs.lenN (c_table c) <=? b) with true by (symmetry; apply N.leb_le; assumption).
+    replace (tne <=? 16 * CpcImageDefs.lenN (c_table c)) with true by (symmetry; apply N.leb_le; assumption).
+    cbn [andb]. rewrite andb_true_r. apply orb_true_iff.
+    destruct Wlow as [Wz|Wz]; [left; apply N.eqb_eq; exact Wz|right; apply N.leb_le; exact Wz].
 Qed.
 
 (* CpcCodecProofs.pairs_codec_rt with the monotonicity the compressor checked itself instead of sortedness *)
@@ -481,7 +506,7 @@ Lemma surprising_rt_inc l pairs ws : l <= 26 -> CpcImageDefs.lenN pairs <= 2 ^ 2
   uncompress_surprising_values ws (CpcImageDefs.lenN pairs) l = Some pairs.
 Proof.
   intros Hl Hn Hf H.
-  destruct (table_words_ok l pairs ws Hl Hn Hf H) as (_ & b & Hb & Hlen & _).
+  destruct (table_words_ok l pairs ws Hl Hn Hf H) as (_ & b & Hb & Hlen & _ & _).
   pose proof (table_words_bound_lt _ _ _ Hb) as Hb32.
   unfold compress_surprising_values in H. cbv zeta in H. unfold uncompress_surprising_values.
   change (2 ^ 26) with 67108864 in Hn. unfold CpcImageDefs.lenN in *.
@@ -672,14 +697,16 @@ Theorem dec_bytes_accepts sd bytes s kxp hip : dec_bytes sd bytes = Some (s, kxp
     i_ser i = 1 /\ i_fam i = 16 /\ i_sh i = compute_seed_hash sd /\
     i_pre i = preamble_ints (i_nc i) (ihh i) (iht i) (ihw i) /\
     8 + 4 * (CpcImageDefs.lenN (i_win i) + CpcImageDefs.lenN (i_tab i)) <= CpcImageDefs.lenN bytes /\
-    (ncoup s <> 0 -> ncoup s <= 64 * 2 ^ lgk s /\ 4 * i_tne i <= 192 * 2 ^ lgk s).
+    (ncoup s <> 0 -> ncoup s <= 64 * 2 ^ lgk s /\ 4 * i_tne i <= 192 * 2 ^ lgk s /\
+                     i_tne i <= 16 * CpcImageDefs.lenN (i_tab i) /\
+                     (CpcImageDefs.lenN (i_win i) = 0 \/ 2 ^ lgk s <= 32 * CpcImageDefs.lenN (i_win i))).
 Proof.
   unfold dec_bytes. destruct (dec_image_bytes bytes) as [i|] eqn:Ei; [|discriminate]. intros H.
   destruct (sketch_of_image_accepts sd i s kxp hip H) as (A1 & A2 & A3 & A4 & A5 & A6 & A7 & A8 & _).
   destruct (dec_image_bytes_accepts bytes i Ei) as (B1 & B2 & B3 & B4 & B5).
   exists i. rewrite A5, A8. repeat match goal with |- _ /\ _ => split end; try assumption; try lia; try reflexivity.
   intros Hn. destruct (iht i || ihw i) eqn:Ef; [|destruct (B5 eq_refl) as (X & _); contradiction].
-  destruct (counts_ok_spec _ _ _ _ _ (B4 eq_refl)) as (C1 & C2 & _). split; assumption.
+  destruct (counts_ok_spec _ _ _ _ _ (B4 eq_refl)) as (C1 & C2 & _ & _ & C5 & C6). repeat split; assumption.
 Qed.
 
 (* ARBITRARY bytes, stream reader: never more than the bytes supplied; the counts are bounded by lg_k alone *)
